@@ -435,7 +435,7 @@ func (g *Gen) build(fn string, args [][]byte) (string, []string) {
 	for i, a := range args {
 		minimal := len(a) == 0 || a[0] != 0
 		switch k := g.R.Intn(6); {
-		case k == 0 && minimal && len(a) <= 7:
+		case k == 0 && minimal && (len(a) <= 7 || len(a) == 8 && a[0] < 0x80):
 			ops[i] = "int64"
 		case k == 1 && minimal && len(a) <= 3:
 			ops[i] = "int"
@@ -455,6 +455,9 @@ func (g *Gen) build(fn string, args [][]byte) (string, []string) {
 	if g.R.Intn(10) == 0 {
 		ops = append(ops, "reuse")
 	}
+	if (fn == spec.FnESDTTransfer || fn == spec.FnBurn || fn == spec.FnESDTNFTTransfer) && g.R.Intn(4) == 0 {
+		ops = append(ops, "helper") // TransferESDT / TransferESDTNFT / BurnESDT for the leading arguments
+	}
 	// the data string a client would send is the documented encoding; Apply replays the builder
 	// calls and compares (so that a builder defect is found by an event that replays)
 	return spec.EncodeData(fn, args), ops
@@ -467,10 +470,13 @@ func (g *Gen) tx(snd, rcv []byte, fn string, args [][]byte, gas uint64, ct int) 
 		t.Args = append(t.Args, hex.EncodeToString(a))
 	}
 	if g.R.Intn(60) == 0 {
-		t.Value = "5"
+		t.Value = []string{"5", "5", "-5", "18446744073709551616", "1"}[g.R.Intn(5)]
 	}
 	if spec.IsContract(snd) && g.R.Intn(3) == 0 {
 		t.GasLocked = uint64(g.R.Intn(5000))
+		if g.R.Intn(12) == 0 {
+			t.GasLocked = []uint64{1 << 63, ^uint64(0), ^uint64(0) - t.Gas, ^uint64(0) - t.Gas + 1}[g.R.Intn(4)]
+		}
 	}
 	return t
 }
